@@ -23,8 +23,11 @@ FNUM = ['0', '1', '2', '3', '4', '255', '256', '-1']
 NAME = ['"F1"', '"NOFILE"', '""', 'STRING$(255,"A")', '"A"+CHR$(0)+"B"', '"A:X"', '"..\\X"', '"COM1:"', '"LPT1:"',
         '"SCRN:"', '"KYBD:"', '"CAS1:"', '"C:\\"', '"*.*"', '"PROG.BAS"', '"PROT.BAS"', '"ASC.BAS"', '"SUB\\X"', 'CHR$(255)']
 VAR = ['A', 'A%', 'A$', 'A#', 'B(1)', 'B$(1)', 'B(99)', 'A!']
-CLASSES = {'i': INT, 's': STR, 'l': LINE, 'f': FNUM, 'n': NAME, 'v': VAR}
-NOMINAL = {'i': 4, 's': 1, 'l': 1, 'f': 1, 'n': 0, 'v': 0}       # 0-based index of the nominal representative
+# memory offsets: low memory / sentinel bytes, keyboard buffer pointers, FIELD buffers and the file headers between them,
+# program code, variable space, top of the segment
+ADDR = ['0', '4', '44', '1050', '1052', '3429', '4073', '4330', '4588', '4718', '30000', '65535', '-1']
+CLASSES = {'i': INT, 's': STR, 'l': LINE, 'f': FNUM, 'n': NAME, 'v': VAR, 'a': ADDR}
+NOMINAL = {'i': 4, 's': 1, 'l': 1, 'f': 1, 'n': 0, 'v': 0, 'a': 0}       # 0-based index of the nominal representative
 
 F = 'files'
 G = ['screen', 'view', 'window']
@@ -98,6 +101,8 @@ S('LIST_FILE', 'LIST {0}-,{1}', 'ln', [F] + P, kw=['LIST'])
 S('LIST_DOT', 'LIST .', '', P, kw=['LIST'])
 S('WAIT', 'WAIT {0},{1},{2}', 'iii', flags=['block', 'quick'])
 S('POKE', 'POKE {0},{1}', 'ii', ['seg'] + P, flags=['quick'])
+S('POKE_ADDR', 'POKE {0},{1}', 'ai', ['seg'] + P + [F], kw=['POKE'], flags=['quick'])
+S('POKE_VARPTR', 'A$="ABC":POKE VARPTR({0})+{1},{2}:PRINT A;A%;A$;A#;B(1);B$(1)', 'vii', kw=['POKE', 'VARPTR'], flags=['quick'])
 S('OUT', 'OUT {0},{1}', 'ii', G, flags=['quick'])
 S('OUT_VIDEO', 'OUT &H3D8,{0}:OUT &H3D9,{0}:OUT &H3C5,{0}:OUT &H3CF,{0}:OUT &H201,{0}', 'i', G, kw=['OUT'])
 S('LPRINT', 'LPRINT {0};{1}', 'is')
@@ -177,6 +182,8 @@ S('CHAIN_MERGE', 'CHAIN MERGE {0},{1},DELETE {1}-{1}', 'nl', [F] + P, kw=['CHAIN
 S('BSAVE', 'BSAVE {0},{1},{2}', 'nii', ['seg', F] + G, flags=['quick'])
 S('BLOAD', 'BLOAD {0},{1}', 'ni', ['seg', F] + G, flags=['quick'])
 S('BSAVE_BLOAD', 'BSAVE "M.BIN",{0},{1}:BLOAD "M.BIN"', 'ii', ['seg'] + G, kw=['BSAVE', 'BLOAD'], flags=['quick'])
+S('BSAVE_ADDR', 'BSAVE "M.BIN",{0},{1}', 'ai', ['seg', F] + G, kw=['BSAVE'], flags=['quick'])
+S('BLOAD_ADDR', 'BSAVE "M.BIN",0,64:BLOAD "M.BIN",{0}', 'a', ['seg', F] + G, kw=['BSAVE', 'BLOAD'], flags=['quick'])
 S('FILES', 'FILES {0}', 'n', [F])
 S('FILES_BARE', 'FILES', '', [F], kw=['FILES'])
 S('FIELD', 'FIELD #{0},{1} AS A$,{2} AS B$', 'fii', [F])
@@ -294,6 +301,8 @@ for nm in ('SGN', 'INT', 'FIX', 'ABS', 'SQR', 'SIN', 'LOG', 'EXP', 'COS', 'TAN',
     Fn(nm + '_STR', nm + '({0})', 's', kw=[nm])
 Fn('RND_BARE', 'RND', '', kw=['RND'])
 Fn('PEEK', 'PEEK({0})', 'i', ['seg'] + P + [F], flags=['quick'])
+Fn('PEEK_ADDR', 'PEEK({0})', 'a', ['seg'] + P + [F], kw=['PEEK'], flags=['quick'])
+Fn('PEEK_VARPTR', 'PEEK(VARPTR({0})+{1})', 'vi', kw=['PEEK', 'VARPTR'], flags=['quick'])
 Fn('FRE', 'FRE({0})', 'i')
 Fn('FRE_STR', 'FRE({0})', 's', kw=['FRE'])
 Fn('INP', 'INP({0})', 'i', G, flags=['quick'])
@@ -380,6 +389,9 @@ def effect(flags):
 def build():
     for i in ITEMS:
         i['eff'] = effect(i['flags'])
+        # a file-name slot can name KYBD: / COM1: / CAS1: -> the statement may wait for input
+        if 'n' in i['slots'] and 'block' not in i['flags']:
+            i['flags'].append('block')
     names = [i['name'] for i in ITEMS]
     assert len(names) == len(set(names)), [n for n in names if names.count(n) > 1]
     for i in ITEMS:
